@@ -169,6 +169,13 @@ func (p c10) Gen(r *simhook.Rand, tier string, idx int) harness.Scenario {
 				if w == 0 {
 					b[0] = "abcdefXYZ"[int(b[0])%9] // an inline command starts with a letter, not with a RESP type byte
 				}
+				if w > 0 && r.Chance(1, 3) {
+					// the separator of an inline command is the space character and nothing else: arguments may carry
+					// any other byte (tabs, form feeds, NUL, bytes that are white space only in some encoding)
+					odd := []string{"\t", "\v", "\f", "\x00", "\x85", "\xa0", "\xc2\x85", "\xc2\xa0", "\xe3\x80\x80", "\xe2\x80\xa8", "\xff", "\"", "'"}
+					k := r.Intn(len(b) + 1)
+					b = append(b[:k:k], append([]byte(odd[r.Intn(len(odd))]), b[k:]...)...)
+				}
 				parts = append(parts, string(b))
 			}
 			sep := " "
